@@ -811,6 +811,51 @@ pub fn run_c18(cfg: &Cfg) -> Report {
         }
     });
     rep.stats.merge(s);
+    // wide nodes: structs, tuples and enums with 63 .. 300 (and 5000) members, type-correct and near-miss JSON, valid and cut bytes
+    let s = parallel(cfg, 3, |t| {
+        let mut wi = 0u64;
+        for width in [63usize, 64, 65, 66, 127, 128, 129, 200, 256, 257, 300, 5000] {
+            for kind in 0..4 {
+                wi += 1;
+                if !t.mine(wi) || t.cfg.expired() || (t.cfg.tier == Tier::Tiny && width > 70) {
+                    continue;
+                }
+                let fname = |i: usize| pcv_core::model::intern(&format!("f{}", i));
+                let leaf = |i: usize| [Shape::U8, Shape::Bool, Shape::U32, Shape::Str][i % 4].clone();
+                let shape = match kind {
+                    0 => Shape::Struct("Wide", (0..width).map(|i| (fname(i), leaf(i))).collect()),
+                    1 => Shape::Tuple((0..width).map(leaf).collect()),
+                    2 => Shape::Enum("WideE", (0..width).map(|i| VariantShape { name: fname(i), data: if i % 2 == 0 { VData::Unit } else { VData::Newtype(Box::new(leaf(i))) } }).collect()),
+                    _ => Shape::Enum("WideV", vec![VariantShape { name: "Only", data: VData::Struct((0..width).map(|i| (fname(i), leaf(i))).collect()) }]),
+                };
+                let schema = shape_to_owned(&shape);
+                let nodes = shape.nodes();
+                for round in 0..3 {
+                    let val = {
+                        let mut g = ValGen::small(&mut t.rng);
+                        g.max_str = 6;
+                        if let (Shape::Enum(n, vs), 2) = (&shape, kind) {
+                            // the last, the first and a middle variant
+                            g.gen_variant(n, vs, [vs.len() - 1, 0, vs.len() / 2][round])
+                        } else {
+                            g.gen(&shape)
+                        }
+                    };
+                    let valid = spec::encode(&val);
+                    t.st.count("wide_node_cases");
+                    c18_decode(t, &schema, &shape, nodes, "wide_valid", &valid);
+                    c18_decode(t, &schema, &shape, nodes, "wide_prefix", &valid[..valid.len() / 2]);
+                    if let Ok(j) = serde_json::to_value(&val) {
+                        c18_encode(t, &schema, &shape, "wide_type_correct", &j);
+                        let nm = near_miss(&mut t.rng, &j);
+                        c18_encode(t, &schema, &shape, "near_miss", &nm);
+                    }
+                }
+            }
+        }
+    });
+    rep.stats.merge(s);
+    rep.floor("wide_node_cases", if cfg.tier == Tier::Tiny { 1 } else { 50 });
     let s = parallel(cfg, 2, |t| {
         let mut di = 0u64;
         for kind in 0..7 {
@@ -911,5 +956,13 @@ pub fn replay(cfg: &Cfg, prop: &str) -> Report {
     });
     rep.stats.merge(s);
     rep.rule = "replay of one recorded case".into();
+    if prop == "C18" && rep.stats.violations.is_empty() && rep.stats.inconclusive.is_empty() {
+        // the recorded case alone is clean: the violation may depend on what the same thread encoded before
+        // (state kept across calls); re-run the workload that produced it
+        let mut r = run_c18(&Cfg { replay: None, tier: Tier::Quick, ..cfg.clone() });
+        r.floors.clear();
+        r.rule = "replay: the recorded case alone no longer violates; the quick workload was re-run to cover history-dependent behaviour".into();
+        return r;
+    }
     rep
 }
